@@ -23,17 +23,34 @@ def _models():
     return st.one_of(gen.model_convection(), gen.model_burgers(), gen.model_shallowwater(), gen.model_euler1d(), gen.model_nozzle())
 
 
+def _units():
+    """density and velocity units (powers of ten): the state is expressed in them (Euler: rho*a, u*b, p*a*b^2; shallow water: h*b^2, u*b; Burgers: u*b)"""
+    return st.one_of(st.none(), st.none(), st.tuples(st.integers(-6, 6), st.integers(-8, 4)).map(list))
+
+
+def _apply_units(md, prim, units):
+    if not units or md["name"] == "convection":
+        return prim
+    a, b = 10.0 ** units[0], 10.0 ** units[1]
+    name = md["name"]
+    if name == "burgers":
+        return [prim[0] * b]
+    if name == "shallowwater":
+        return [prim[0] * b * b, prim[1] * b]
+    return [prim[0] * a, prim[1] * b, prim[2] * a * b * b]
+
+
 def strat1d(tier):
     nmax = 20 if tier == "quick" else 60
     return _models().flatmap(lambda md: st.builds(
-        lambda me, s, cfl, j, dlt: dict(model=md, mesh=me, state=s, cfl=cfl, other=j, delta=dlt),
-        gen.mesh_any(1 if md["name"] != "refined" else 2, nmax), gen.state_for(md, True), gen.logf(-2, 2), st.integers(0, 1000), gen.f(0.1, 0.9)))
+        lambda me, s, cfl, j, dlt, un: dict(model=md, mesh=me, state=s, cfl=cfl, other=j, delta=dlt, units=un),
+        gen.mesh_any(1 if md["name"] != "refined" else 2, nmax), gen.state_for(md, True), gen.logf(-2, 2), st.integers(0, 1000), gen.f(0.1, 0.9), _units()))
 
 
 def strat2d(tier):
     nmax = 5 if tier == "quick" else 10
-    return st.builds(lambda md, me, s, cfl, j, dlt: dict(model=md, mesh2d=me, state=s, cfl=cfl, other=j, delta=dlt),
-                     gen.model_euler2d(), gen.mesh2d(1, nmax), gen.state_euler2d(True), gen.logf(-2, 2), st.integers(0, 1000), gen.f(0.1, 0.9))
+    return st.builds(lambda md, me, s, cfl, j, dlt, un: dict(model=md, mesh2d=me, state=s, cfl=cfl, other=j, delta=dlt, units=un),
+                     gen.model_euler2d(), gen.mesh2d(1, nmax), gen.state_euler2d(True), gen.logf(-2, 2), st.integers(0, 1000), gen.f(0.1, 0.9), _units())
 
 
 def _setup(case):
@@ -45,14 +62,14 @@ def _setup(case):
         n = nx * ny
         sx = ((np.arange(n) % nx) + 0.5) / nx
         sy = ((np.arange(n) // nx) + 0.5) / ny
-        prim = cases.prim_state(md, case["state"], sx, sy)
+        prim = _apply_units(md, cases.prim_state(md, case["state"], sx, sy), case.get("units"))
         size = np.full(n, (case["mesh2d"]["lx"] / nx) * (case["mesh2d"]["ly"] / ny) / (case["mesh2d"]["lx"] / nx + case["mesh2d"]["ly"] / ny))
         disc = cases.build_disc2d(model, mesh, dict(name="extrapol2d1"), "hlle", {t: {"type": "per"} for t in mesh.list_of_bctags()})
     else:
         mesh = cases.build_mesh(case["mesh"])
         xf = np.asarray(mesh.xf, dtype=float)
         n = len(xf) - 1
-        prim = cases.prim_state(md, case["state"], cases.norm_coord(xf))
+        prim = _apply_units(md, cases.prim_state(md, case["state"], cases.norm_coord(xf)), case.get("units"))
         size = xf[1:] - xf[:-1]
         disc = cases.build_disc(model, mesh, dict(name="extrapol1"), None, {"type": "per"}, {"type": "per"})
     return md, model, mesh, disc, prim, size, n
